@@ -639,3 +639,150 @@ def rule_release_after(mod, rep):
                     work.append((c.fn, c, d + 1))
         rep.check(not bad, "REL-AFTER", "%s#release@%s" % (f0.name, S0.ln), "nothing written to L's index arrays in the %d continuation region(s)" % regions,
                   "column released before its supernode's bookkeeping is complete: " + "; ".join(bad[:4]), S0.loc, f0.name)
+
+
+# ---------------------------------------------------------------------------------------------------------------------------------
+# SNODE-CONT: cholnzcnt continues the current supernode only at a vertex with exactly one child
+# ---------------------------------------------------------------------------------------------------------------------------------
+def rule_snode_continue(mod, rep):
+    rep.rule("SNODE-CONT", "cholnzcnt (symmetric mode): part_super_L records a partition of the postordered columns into chains of the elimination tree, so a vertex that does NOT "
+             "start a new supernode must have exactly one child (then lownbr-1 is that child). On the path that skips 'part_super_L[xsup] = lownbr - xsup' the tests on "
+             "nchild[lownbr] must leave exactly the value 1 (a vertex with no child - an isolated vertex - starts its own supernode)", floor=1)
+    from .pivot import _cd_closure
+    f = mod.funcs.get("cholnzcnt")
+    if f is None:
+        rep.brk("ANALYSIS-BROKEN SNODE-CONT: cholnzcnt not found")
+        return
+    rep.scope([f.name])
+    kp = f.pindex("part_super_L")
+    loops = f.loops()
+    sites = []
+    for S in f.insts():
+        if S.op == "store" and any(p[0] == ("A", kp) for p in f.addr_paths(S)) and not is_const(S.ops[0], 0):
+            sites.append(S)
+    # the in-loop site (the one after the loop closes the last supernode)
+    sites = [S for S in sites if any(S.bb.id in body for h, body in loops)]
+    if not sites:
+        rep.brk("ANALYSIS-BROKEN SNODE-CONT: no store part_super_L[xsup] = ... inside the vertex loop of cholnzcnt")
+        return
+    for S in sites:
+        allowed = {0, 1, 2, 3, 1 << 20}
+        ntests = 0
+        for (a, s) in f.control_deps().get(S.bb.id, ()):          # the direct decisions: each has one edge towards the store, the other one skips it
+            t = f.blocks[a].insts[-1]
+            if t.op != "br" or not t.ops or t.ops[0][0] != "v":
+                continue
+            C = f.inst[t.ops[0][1]]
+            if C.op != "icmp":
+                continue
+            ops = [strip_casts(f, o) for o in C.ops]
+            side = None
+            for k in (0, 1):
+                if ops[k][0] == "v" and f.inst[ops[k][1]].op == "load" and ops[1 - k][0] == "c":
+                    L = f.inst[ops[k][1]]
+                    # nchild is a local heap array (intMalloc): identified by its counting loop '++nchild[parent]' - a load/add 1/store on the same cell
+                    base = f.addr_paths(L)
+                    incr = any(x.op == "store" and f.addr_paths(x) == base and strip_casts(f, x.ops[0])[0] == "v" and f.inst[strip_casts(f, x.ops[0])[1]].op == "add"
+                               and any(is_const(z, 1) for z in f.inst[strip_casts(f, x.ops[0])[1]].ops) for x in f.insts())
+                    if incr:
+                        side = k
+            if side is None:
+                continue
+            c = ops[1 - side][1]
+            pr = _PRED.get(C.pred)
+            if pr is None:
+                continue
+            ev = (lambda v: pr(v, c)) if side == 0 else (lambda v: pr(c, v))
+            # successor s is the edge towards the store; the skip edge is the other one
+            succ = [b.id for b in f.blocks[a].succ]
+            toward_true = (succ[0] == s)
+            ntests += 1
+            allowed = {v for v in allowed if ev(v) != toward_true}
+        rep.check(ntests >= 1 and allowed == {1}, "SNODE-CONT", "cholnzcnt#continue@%s" % S.ln,
+                  "supernode continues only where nchild[lownbr] == 1 (%d test(s))" % ntests,
+                  "the supernode is continued at vertices with nchild in %s (sampled from 0,1,2,3,large): a vertex without children is merged with the preceding column, which is not "
+                  "its child - ?PresetMap then skips the relaxed supernode starting there and under-reserves lusup[]" % sorted(allowed), S.loc, f.name)
+
+
+# ---------------------------------------------------------------------------------------------------------------------------------
+# P-FOUND: "search trackers" of p?gstrf_pivotL (position of the caller's pivot row / of the diagonal) are used only when the search succeeded
+# ---------------------------------------------------------------------------------------------------------------------------------
+def rule_pivot_found(mod, rep):
+    rep.rule("P-FOUND", "p?gstrf_pivotL: a variable that records the position at which a wanted row subscript was found in the candidate loop (caller's pivot row for usepr, "
+             "the diagonal for diagonal pivoting) starts with a value that is not a position (negative constant), and is used as an index after the loop only under a test "
+             "that excludes that start value - otherwise a column that does not contain the wanted row silently pivots on another row while perm_r records the wanted one", floor=8)
+    from .pivot import _cd_closure
+    for prec, f in fam(mod, "p?gstrf_pivotL"):
+        rep.scope([f.name])
+        for h, body in f.loops():
+            hb = f.blocks[h]
+            for Q in hb.insts:
+                if Q.op != "phi" or not Q.ty.startswith("i"):
+                    continue
+                inits = [strip_casts(f, o) for o, b in zip(Q.ops, Q.inb) if b not in body]
+                ins = [strip_casts(f, o) for o, b in zip(Q.ops, Q.inb) if b in body]
+                if len(inits) != 1 or len(ins) != 1 or ins[0][0] != "v":
+                    continue
+                M = f.inst[ins[0][1]]
+                # the in-loop value merges Q itself with the loop index under an equality test of a loaded subscript
+                if M.op != "phi":
+                    continue
+                mops = [strip_casts(f, o) for o in M.ops]
+                others = [o for o in mops if not (o[0] == "v" and o[1] == Q.i)]
+                if len(others) != 1 or len(mops) < 2 or others[0][0] != "v":
+                    continue
+                idxphi = f.inst[others[0][1]]
+                if idxphi.op != "phi" or idxphi.bb.id != h:
+                    continue
+                # condition guarding the update
+                eq_guard = False
+                for (a, s) in f.control_deps().get(f.blocks[[b for o, b in zip(M.ops, M.inb) if strip_casts(f, o) == others[0]][0]].id, ()):
+                    t = f.blocks[a].insts[-1]
+                    if t.op == "br" and t.ops and t.ops[0][0] == "v":
+                        C = f.inst[t.ops[0][1]]
+                        if C.op == "icmp" and C.pred == "eq" and any(strip_casts(f, o)[0] == "v" and f.inst[strip_casts(f, o)[1]].op == "load" for o in C.ops):
+                            eq_guard = True
+                if not eq_guard:
+                    continue
+                name = Q.dn or ("phi%d" % Q.i)
+                init = inits[0]
+                ok1 = init[0] == "c" and init[1] < 0
+                uses = []
+                for x in f.insts():
+                    if x.op in ("load", "store") and x.bb.id not in body:
+                        idx = gep_index(f, x.ops[0] if x.op == "load" else x.ops[1])
+                        if idx is not None and tuple(strip_casts(f, idx)) == ("v", Q.i):
+                            uses.append(x)
+                unguarded = []
+                for u in uses:
+                    g = False
+                    for (a, s) in _cd_closure(f, u.bb.id):
+                        t = f.blocks[a].insts[-1]
+                        if t.op != "br" or not t.ops or t.ops[0][0] != "v":
+                            continue
+                        C = f.inst[t.ops[0][1]]
+                        if C.op != "icmp":
+                            continue
+                        ops = [strip_casts(f, o) for o in C.ops]
+                        for k in (0, 1):
+                            if tuple(ops[k]) == ("v", Q.i) and ops[1 - k][0] == "c" and init[0] == "c":
+                                pr = _PRED.get(C.pred)
+                                if pr is None:
+                                    continue
+                                val = pr(init[1], ops[1 - k][1]) if k == 0 else pr(ops[1 - k][1], init[1])
+                                succ = [b.id for b in f.blocks[a].succ]
+                                edge_of_init = succ[0] if val else succ[1]
+                                if edge_of_init != s:
+                                    g = True
+                    if not g:
+                        unguarded.append(u)
+                if not ok1:
+                    bad = ("'%s' starts at a value that is itself a candidate position (%s), so 'not found' cannot be told from 'found at the first candidate'"
+                           % (name, "constant %s" % init[1] if init[0] == "c" else "not a negative constant"))
+                elif unguarded:
+                    bad = "'%s' is used as an index at line %s without a test that excludes its start value %s" % (name, unguarded[0].ln, init[1])
+                else:
+                    bad = None
+                rep.check(bad is None, "P-FOUND", "%s#%s" % (f.name, name),
+                          "starts at %s and its %d use(s) as an index are guarded by a found-test" % (init[1] if init[0] == "c" else "?", len(uses)),
+                          bad, Q.loc if Q.ln else f.file, f.name)
